@@ -92,8 +92,8 @@ def _cases(draw):
     case = build(
         d, config=cfg, calls_per_op=2,
         schema_kw={"defaults": 0.1, "scalar_names": ("Money", "DateTime"), "n_scalars": (0, 2), "scalar_weight": 2},
-        ops_kw={"frag_p": 0.5, "var_p": 0.5},
-        doc_kw={"n_ops": (1, 4), "n_frags": (0, 3)}, desc_hook=hook, config_desc_fn=scalar_cfg,
+        ops_kw={"frag_p": 0.6, "var_p": 0.5, "root_frag_reroll_p": 0.0, "root_family_p": 0.35},
+        doc_kw={"n_ops": (1, 4), "n_frags": (0, 4)}, desc_hook=hook, config_desc_fn=scalar_cfg,
     )
     case.pop("_desc_obj", None)
     if case.get("rejected"):
@@ -123,6 +123,22 @@ def _cases(draw):
 
 def strategy(tier):
     return _cases()
+
+
+def dump(value):
+    """JSON view of whatever a method returns (model, list, enum, scalar); goes through model_dump so that lazily
+    completed pydantic classes are handled like a user's call would"""
+    import enum as _enum
+
+    if isinstance(value, pydantic.BaseModel):
+        return value.model_dump(mode="json", by_alias=True)
+    if isinstance(value, (list, tuple)):
+        return [dump(v) for v in value]
+    if isinstance(value, dict):
+        return {k: dump(v) for k, v in value.items()}
+    if isinstance(value, _enum.Enum):
+        return value.value
+    return to_jsonable_python(value)
 
 
 def norm_hints(method, pkg, other_name):
@@ -237,14 +253,18 @@ def run_case(case, scratch):
             continue
         keys = opwalk.collect(schema, fragments, opdefs[op["name"]].selection_set, schema.get_root_type(opdefs[op["name"]].operation))
         uval = ru["value"]
-        udump = to_jsonable_python(uval, by_alias=True)
-        pdump = to_jsonable_python(rp["value"], by_alias=True)
+        udump = dump(uval)
+        pdump = dump(rp["value"])
         nontrivial = len(plugins) >= 2
         if "shorter" in plugins and len(keys) == 1:
             key = next(iter(keys))
             by_alias = {(f.alias or n): n for n, f in type(uval).model_fields.items()}
-            expected = to_jsonable_python(getattr(uval, by_alias[key]), by_alias=True)
-            if pdump != expected or isinstance(rp["value"], type(uval)):
+            expected = dump(getattr(uval, by_alias[key]))
+            selected_twice = len(keys[key]["nodes"]) > 1
+            if selected_twice and pdump == udump:
+                pass  # one response key requested through two selections (directly and via a fragment): the statement
+                # does not say whether that is "a single top-level field"; both behaviours are accepted
+            elif pdump != expected or isinstance(rp["value"], type(uval)):
                 fail("shorter_result", "", f"{label}: returned {json.dumps(pdump, default=repr)[:200]}, the single top-level field {key!r} of the unplugged result is "
                                            f"{json.dumps(expected, default=repr)[:200]}")
             if isinstance(expected, (list, dict)) or "op.fragment_spread" in feats or "op.abstract_position" in feats:
